@@ -9,7 +9,8 @@ TRUSTED_BASE = [
     "compression: a parameter (any comp/decomp with decomp c (comp c b) = b) in the theorems; in the differential the real codecs' behaviour is shipped with each case as (plain, compressed) pairs; gzip/snappy/lz4/zstd themselves are oracles",
     "protocol writers' WriteAt back-patching of placeholders is modelled by the final field values; sizeOfUnsignedVarInt's (bits.Len64(x|1)+6)/7 is modelled as the shift-loop count (both checked byte-exactly on every run, not proved equal)",
     "Go stdlib hash/crc32 is modelled by the bitwise reflected CRC of coq/Lib/Crc.v (compared on every case, not verified); time.Time by int64 nanoseconds (the zero time.Time, replaced by time.Now() in Conn, is outside the model)",
-    "ocaml/kvio.ml.in + ocaml/c05_driver.ml (hex interchange) and harness/kvfmt; page ref-counting (C05_pages_stable) is not modelled here",
+    "coq/Model/Pages.v: protocol/buffer.go's pages, buffers and refs as an atomic-step transition system (each refc update / pool Get/Put one step; sync.Pool may forget pages); the harness translates what the real pageBuffer did (through /repo/protocol/verif_export_c05.go) into these steps and compares refcounts and the bytes read through every ref; real interleavings finer than one step (the window between the atomic decrement to 0 and pagePool.Put) are exercised only by the concurrent stress op",
+    "ocaml/kvio.ml.in + ocaml/c05_driver.ml (hex interchange) and harness/kvfmt",
 ]
 ASSUMPTIONS = [
     "keys, values, header parts and record counts below 2^31; uncompressed records and the batch below 2^31 bytes (Kafka's int32 size fields); timestamps within 2^62 ms",
@@ -117,7 +118,20 @@ def reader_predicate(c):
     return None
 
 
+def pages_predicate(c):
+    g = c["go"]
+    if g.startswith("UNSTABLE"):
+        return (None, "bytes seen through a live pageRef changed while it was open: " + g[:60])
+    if g.startswith("corrupt"):
+        return (None, "concurrent decodes recycling pooled pages: a ref read other bytes than were written: " + g[:40])
+    if g.startswith(("GENBUG", "PANIC")):
+        return (None, "page harness failed: " + g[:80])
+    return None
+
+
 def predicate(c):
+    if c["op"] in ("pg", "pgc"):
+        return pages_predicate(c)
     return reader_predicate(c) if c["op"] == "rd" else writer_predicate(c)
 
 
@@ -129,7 +143,8 @@ def setup():
 def run_cases(ctx, n, big):
     gobin = L.go_build("c05")
     model = L.ocaml_build("c05")
-    rc, out, err, dt = L.sh([gobin, "-seed", str(ctx.seed), "-n", str(n), "-big", str(big)], timeout=3000)
+    rc, out, err, dt = L.sh([gobin, "-seed", str(ctx.seed), "-n", str(n), "-big", str(big),
+                             "-pg", str(ctx.scale(40, 150))], timeout=3000)
     if rc != 0:
         raise L.Fail("correspondence", "harness cmd/c05 crashed", (out[-1500:] + err[-2500:]))
     cases = L.parse_cases(out)
@@ -169,6 +184,8 @@ def correspondence(ctx):
         m = str(c.get("model"))
         if m.startswith("NOORACLE"):
             what = "model's pre-compression bytes differ from what the code handed to the codec (but the produced set decodes to the right records)"
+        elif c["op"] in ("pg", "pgc"):
+            what = "page model and pageBuffer differ (refcounts or bytes read through a ref) although every ref stayed stable"
         elif c["op"] == "rd":
             what = "reader model and code differ on a case where the code's own output satisfies the property"
         else:
@@ -182,7 +199,9 @@ def correspondence(ctx):
                      "decreasing / > 2^31 ms apart times), compared byte-exact with the extracted model and decoded by the harness' independent codec; "
                      "readers rd: reference-encoded sequences of 1..4 items (v0, v1, v1 wrappers per codec, v2 per codec, control, transactional, "
                      "offset gaps, compacted wrappers, corrupted CRCs, min inside the first item) through RecordSet.ReadFrom and messageSetReader, "
-                     "compared with the model, with each other and with the reference; a case is non-trivial when it has any feature tag; distinct by hash of op+args",
+                     "compared with the model, with each other and with the reference; pg: operation sequences on the real pageBuffer/pageRef (writes across 64 KiB pages, refs, "
+                     "buffer unref before ref close, pooled pages reused while older refs are open, double Close) translated to the steps of Model/Pages.v, refcounts and ref contents "
+                     "compared after the sequence and ref stability checked after every operation; pgc: concurrent goroutines recycling pages with content checks; a case is non-trivial when it has any feature tag; distinct by hash of op+args",
                 samples=[c["line"][:240] + " | " + c["go"][:120] for c in cases[:2] + cases[len(cases)//2:len(cases)//2+2] + cases[-2:]],
                 failures=failures,
                 notes=["Conn path (messageSetReader) verifies no checksum and hands control-batch records to the consumer; the property asks both only of Client.Fetch, so these are not counted as violations",
